@@ -57,6 +57,7 @@ type drvQuery struct {
 	match   func(r drvRow) bool
 	groupBy []string
 	wantErr bool
+	noParse bool     // the text is not a query at all: rejected before anything is executed
 	args    []string // bound to $1, $2, ... (nil: the text has no placeholders)
 }
 
